@@ -238,7 +238,7 @@ func c34GenTree(q *gen.R, o c34GenOpts) *c34Tree {
 			if depth > 0 {
 				w = q.Range(1, 2)
 			}
-			for i := 0; i < w && n < 10; i++ {
+			for i := 0; i < w && n < 8; i++ {
 				c := mk(b, kind)
 				switch kind {
 				case "layers":
@@ -465,7 +465,7 @@ func c34RunD2(d2bin string, sb *c34Sandbox, extra ...string) c34RunOut {
 				ro.Exit = ee.ExitCode()
 			}
 		}
-	case <-time.After(240 * time.Second):
+	case <-time.After(600 * time.Second):
 		syscall.Kill(-cmd.Process.Pid, syscall.SIGKILL)
 		<-done
 		ro.Timeout = true
@@ -516,7 +516,7 @@ func c34Cases(seed int64, tier string, forLinks bool) []run.Case {
 	r := gen.New(seed)
 	n := tierN(tier, 100, 4000)
 	if forLinks {
-		n = tierN(tier, 200, 6000)
+		n = tierN(tier, 120, 6000)
 	}
 	// development aid only: VERIF_LIMIT=<k> runs the first k trees of the list
 	if v, err := strconv.Atoi(os.Getenv("VERIF_LIMIT")); err == nil && v > 0 && v < n {
@@ -618,7 +618,7 @@ func c34Exec(c run.Case, id, d2bin string) (res run.Result) {
 		return
 	}
 	if ro.Timeout {
-		res.Inconclusive = "d2 did not finish within 240 s"
+		res.Inconclusive = "d2 did not finish within 600 s"
 		return
 	}
 	nBoards, nContent := 0, 0
